@@ -5,6 +5,7 @@
 package path
 
 import (
+	"database/sql/driver"
 	"errors"
 
 	"github.com/theory/sqljson/path/ast"
@@ -13,6 +14,7 @@ import (
 )
 
 var (
+	_ driver.Value
 	_ ast.Node
 	_ exec.Option
 	_ = parser.Parse
